@@ -40,6 +40,10 @@ static void gen(mvsim_rng *r, long *p, int tier) {
   p[Q_YIELD_PM] = 500; p[Q_SEED] = (long)(mvsim_rng_next(r) >> 20);
 }
 typedef struct { long t, i; int op; } opctx;
+static size_t odd_stack_size(uint64_t h) {
+  static const size_t sz[] = { 65536 + 1, 131072 - 4095, 126977, 65535, 98304 + 123, 262144 - 1, 81920 };
+  return sz[h % 7];
+}
 static void *child_fn(void *a) { for (long k = 0; k < ((long)a & 3); k++) myth_yield(); mvsim_user_point(); return a; }
 static void *child_quick(void *a) { return a; }
 enum { us_full = 1, us_sleeping = 2 };
@@ -70,7 +74,7 @@ static void do_op(void *arg) {
     case OP_CREATE: { myth_thread_t t = myth_create(child_fn, (void *)(c->i + 1)); void *r; myth_join(t, &r); break; }
     case OP_CREATE_EX: {
       myth_thread_attr_t a; myth_thread_attr_init(&a);
-      if (c->i & 1) myth_thread_attr_setstacksize(&a, 16384);
+      if (c->i & 1) myth_thread_attr_setstacksize(&a, (c->i & 2) ? 16384 : odd_stack_size(wl_mix(P[Q_SEED], 8900 + (uint64_t)c->i)));
       myth_thread_t t; myth_create_ex(&t, &a, child_fn, (void *)(c->i + 2)); void *r; myth_join(t, &r); break;
     }
     case OP_JOIN_BLOCK: { myth_thread_t t = myth_create(child_fn, (void *)3L); void *r = 0; myth_join(t, &r); MVH_CHECK(r == (void *)3L, "C01-JOIN-VALUE", "join value"); break; }
@@ -136,8 +140,15 @@ static void run(const long *p, mvsim_runcfg *cfg, mvsim_runstats *st) {
   myth_mutex_init(&RM, 0); myth_mutex_init(&CM, 0); myth_cond_init(&CC, 0); myth_barrier_init(&RB, 0, NT);
   for (int s = 0; s < NT / 2; s++) myth_uncond_init(&UC[s].u);
   for (long i = 0; i < NT; i++) {
-    if (p[Q_PFIRST] && (i & 1)) { myth_thread_attr_t a; myth_thread_attr_init(&a); myth_create_ex(&TH[i], &a, probe_thread, (void *)i); }
-    else TH[i] = myth_create(probe_thread, (void *)i);
+    /* probe threads on default stacks and on custom stacks of sizes that are not multiples of the page size (the
+       attribute size classes round them; short-lived children on the same odd sizes recycle those blocks next to us) */
+    uint64_t hs = wl_mix(p[Q_SEED], 8800 + i);
+    int custom = (hs % 3) == 0;
+    if ((p[Q_PFIRST] && (i & 1)) || custom) {
+      myth_thread_attr_t a; myth_thread_attr_init(&a);
+      if (custom) myth_thread_attr_setstacksize(&a, odd_stack_size(hs >> 8));
+      myth_create_ex(&TH[i], &a, probe_thread, (void *)i);
+    } else TH[i] = myth_create(probe_thread, (void *)i);
   }
   for (int i = 0; i < NT; i++) { void *r = 0; myth_join(TH[i], &r); MVH_CHECK(r == (void *)(long)(i + 1), "C01-JOIN-VALUE", "join value"); }
   myth_barrier_destroy(&RB);
